@@ -492,8 +492,16 @@ class ObjRun:
                 _try(lambda: obj.gradient(vals[pn[1][0]]))
         elif what == "sample":
             if hasattr(obj, "sample"):
-                _try(lambda: obj.sample(op.get("N", 1), rng=np.random.RandomState(op.get("pick", 1))))
-                _try(lambda: obj.sample(op.get("N", 1)))
+                def draw_and_edit(**kw):
+                    # the caller edits what was handed out (a sample is the caller's to keep): the object that produced it
+                    # must not see that
+                    out = obj.sample(op.get("N", 1), **kw)
+                    arr = out.samples if hasattr(out, "samples") else out
+                    if isinstance(arr, np.ndarray) and arr.size and arr.flags.writeable:
+                        arr[...] = arr * 2.0 + 1.0
+                        self.ctx.hit("handed_out_sample_edited_by_caller")
+                _try(lambda: draw_and_edit(rng=np.random.RandomState(op.get("pick", 1))))
+                _try(lambda: draw_and_edit())
         elif what == "observers":
             for attr in ("name", "dim", "geometry", "is_cond"):
                 _try(lambda: getattr(obj, attr))
@@ -889,7 +897,7 @@ def _short(v):
         return str(val)[:80]
 
 
-TAGS = {"gamma_mv": [], "kl_nonlin": ["y.cov"], "lin_step": ["y.cov"], "selfnamed": ["y.cov"], "cov_sdt": ["y.cov"], "cov_sd": ["y.cov"], "direct_param": ["y.cov"], "sigdep_x": ["x.prec", "y.cov"], "reg_d": ["x.prec"], "lin_geom": ["y.cov"], "lognormal_cov_s": ["x.cov"], "lin_sqrtprecF": ["y.cov"], "lin_s": ["y.cov"], "lin_d_s": ["x.prec", "y.cov"], "gmrf_d_s": ["x.prec", "y.prec"], "lmrf_d": ["x.scale"],
+TAGS = {"heat_pde": ["y.cov"], "userdef_x": ["y.cov"], "gamma_mv": [], "kl_nonlin": ["y.cov"], "lin_step": ["y.cov"], "selfnamed": ["y.cov"], "cov_sdt": ["y.cov"], "cov_sd": ["y.cov"], "direct_param": ["y.cov"], "sigdep_x": ["x.prec", "y.cov"], "reg_d": ["x.prec"], "lin_geom": ["y.cov"], "lognormal_cov_s": ["x.cov"], "lin_sqrtprecF": ["y.cov"], "lin_s": ["y.cov"], "lin_d_s": ["x.prec", "y.cov"], "gmrf_d_s": ["x.prec", "y.prec"], "lmrf_d": ["x.scale"],
         "two_lik": ["y2.cov"], "nonlin": ["y.cov"], "xz_s": ["y.cov"], "laplace_b": ["x.scale"],
         "mean_m": ["x.mean", "y.cov"], "cmrf_d": ["x.scale"], "lognormal": ["y.cov"]}
 
